@@ -326,7 +326,8 @@ def classify(fa, b, s):
 def run_panic_rule(ctx, rule, roots, justified, overflow_fns=(), crates=("agdb",), floor=10):
     """justified: dict key (function|kind|callee) -> reason | (reason, requirement(fa, body, site) -> bool)."""
     fa = ctx.facts
-    cg = CallGraph(fa)
+    from lib import inline
+    cg = CallGraph(fa, inline_view=True)
     seen = cg.closure([r for r in roots if r is not None])
     n_sites = 0
     n_auto = 0
@@ -334,6 +335,7 @@ def run_panic_rule(ctx, rule, roots, justified, overflow_fns=(), crates=("agdb",
     for p, (b, parent, bb) in sorted(seen.items()):
         if b.crate not in crates or "test_utilities" in b.path:
             continue
+        b = inline.inlined(fa, b)       # sites of folded helpers are sites of the function they were extracted from
         fn = common.norm(b.root or b.npath)
         ov = any(fn.endswith(x) for x in overflow_fns)
         for s in panics.sites(b, overflow=ov):
